@@ -422,6 +422,8 @@ func c10ChurnRace(w *ndWriter, base, goroutines, each int) {
 
 func c10Main(args []string) error {
 	switch args[0] {
+	case "direct":
+		return c10Direct(args[1:])
 	case "record":
 		w, err := newNDWriter(flagVal(args, "out", "c10.trace.ndjson"))
 		if err != nil {
@@ -474,5 +476,5 @@ func c10Main(args []string) error {
 		fmt.Printf("{\"runs\":%d}\n", runs)
 		return nil
 	}
-	return fmt.Errorf("c10: record")
+	return fmt.Errorf("c10: record | direct")
 }
